@@ -732,6 +732,17 @@ Theorem c13_name_forms_splitext_refuted :
   /\ file_parts_k posix_normpath SplitExt (NStr [97; 47; 98; 46; 99; 46; 100]) = file_parts_k posix_normpath (SplitLast 46) (NStr [97; 47; 98; 46; 99; 46; 100]).
 Proof. exact name_forms_splitext_refuted. Qed.
 
+(** Seeded c13_6 given a meaning: [RBlockLoopRel n] = blocks of n in an inner loop, `start` taken once before the first block, then
+    `seek(start + end + 1)` with `end` found in the LAST block.  Not accepted; 127 characters are read and the file is left after the
+    terminator, with 128 characters the string is still right but the file is left at position 1, inside the string. *)
+Theorem c13_nullstr_block_rel_refuted :
+  let s127 := repeat 97 127 in let s128 := repeat 97 128 in
+  reader_ok (RBlockLoopRel 128) = false
+  /\ read_cstr_r (RBlockLoopRel 128) (s127 ++ 0 :: [7; 8]) = Some (s127, [7; 8])
+  /\ read_cstr_r (RBlockLoopRel 128) (s128 ++ 0 :: [7; 8]) = Some (s128, repeat 97 127 ++ 0 :: [7; 8])
+  /\ read_cstr_r (RBlockLoop 128) (s128 ++ 0 :: [7; 8]) = Some (s128, [7; 8]).
+Proof. exact nullstr_block_rel_refuted. Qed.
+
 (** ---- round 5: the listing methods called with arguments (SM/VpkListing.v) ---- *)
 
 (** [list_walk w ext folder t] is what `filenames(ext, folder)` / `fileinfos(ext=, folder=)` yield on the nested dicts [t] when the method,
